@@ -26,3 +26,32 @@ fn display_roundtrip_bounded() {
     kani::cover!(comma && int_part >= 1000 && scale == 2);
     kani::cover!(comma && int_part == 0 && scale == 2 && m != 0);
 }
+
+/// C06 (bounded): the error path of from_str (`try_find_char`, which slices the text around a byte offset) never
+/// panics, for every text of <= 3 characters over {'1', ',', 'x', 'あ' (3 bytes)} and every byte offset inside it.
+#[kani::proof]
+#[kani::unwind(12)]
+fn try_find_char_no_panic() {
+    let mut buf = [0u8; 9];
+    let n: usize = kani::any();
+    kani::assume(n >= 1 && n <= 3);
+    let mut len = 0;
+    for k in 0..3 {
+        if k < n {
+            let t: u8 = kani::any();
+            kani::assume(t < 4);
+            match t {
+                0 => { buf[len] = b'1'; len += 1; }
+                1 => { buf[len] = b','; len += 1; }
+                2 => { buf[len] = b'x'; len += 1; }
+                _ => { buf[len] = 0xE3; buf[len + 1] = 0x81; buf[len + 2] = 0x82; len += 3; }
+            }
+        }
+    }
+    let s = unsafe { std::str::from_utf8_unchecked(&buf[..len]) };
+    let i: usize = kani::any();
+    kani::assume(i < len);
+    let out = try_find_char(s, i, buf[i]);
+    assert!(out.len() >= 1);
+    kani::cover!(len == 5 && i == 3);
+}
